@@ -859,10 +859,13 @@ def run(ctx):
         "IEEE rounding: theorems are over exact reals; the float instance of the same definitions is what the correspondence executes",
         "NaN / integer-dtype inputs of array_discrete, callable or None means with process=True, invalid store names: outside the modelled domain",
     ]
-    for f in ("array_to_uniform", "array_to_arcsin", "array_to_uquad", "array_zinnharvey", "array_force_moments", "array_boxcox",
-              "array_discrete", "Field.transform wrappers (apply, binary, discrete, boxcox, zinnharvey, normal_*; process/keep_mean/store)"):
+    for f in ("array_force_moments", "array_discrete", "array_* with mean=None / var=None (np.mean / np.var of the data)",
+              "Field.transform wrappers (apply, binary, discrete, boxcox, zinnharvey, normal_*; process/keep_mean/store)"):
         ctx.tie[f] = "hand model + correspondence"
-    for f, how in (("array_to_lognormal", "any number type"), ("_uniform_to_arcsin", "at R"), ("_uniform_to_uquad", "at R"),
+    for f, how in (("array_to_lognormal", "any number type"), ("array_to_uniform (mean, var given)", "any number type"),
+                   ("array_zinnharvey (mean, var given; conn low / high)", "any number type"),
+                   ("array_to_arcsin (given and default bounds)", "at R"), ("array_to_uquad (given and default bounds)", "at R"),
+                   ("array_boxcox", "at R"), ("_uniform_to_arcsin", "at R"), ("_uniform_to_uquad", "at R"),
                    ("BoxCox._normalize", "at R"), ("BoxCox._denormalize", "at R")):
         ctx.tie[f] = "translated on this run (py2coq, gen/Formulas_gen.v) = hand model, Coq-checked %s (props C19_tie_*); + correspondence" % how
     proofs_ok = ctx.proofs("props/C19.v")
